@@ -18,7 +18,9 @@ Inductive c06case :=
 | CUse (u : string) (k : key) (expect : res unit)        (* key.check_use(u) *)
 | CAlg (a : string) (k : key) (expect : res unit)        (* key.check_alg(a) *)
 | COp (op : string) (k : key) (expect : res unit)        (* key.check_key_op(op) *)
-| CWarn (text : bytes) (warned : bool).                  (* OctKey.import_key(text) warns *)
+| CWarn (text : bytes) (warned : bool)                   (* OctKey.import_key(text) warns *)
+| CWarnRoutes (text : bytes) (bits : N) (obs : list (text_route * bool)).
+    (* the text given through each route: (route, warned); bits = size of the resulting key *)
 
 (* a primitive's TypeError (model) stands for TypeError or AttributeError *)
 Definition exn_sim (model impl : exn) : bool :=
@@ -53,6 +55,7 @@ Definition c06_model (c : c06case) : res unit :=
   | CAlg a k _ => check_alg a k
   | COp op k _ => check_key_op op k
   | CWarn t _ => if oct_import_warns t then Ok tt else Err EOracleMiss
+  | CWarnRoutes t _ _ => if oct_import_warns t then Ok tt else Err EOracleMiss
   end.
 
 Definition c06_check (c : c06case) : bool :=
@@ -69,6 +72,9 @@ Definition c06_check (c : c06case) : bool :=
       end
   | CUse _ _ x | CAlg _ _ x | COp _ _ x => res_sim (c06_model c) x
   | CWarn t w => Bool.eqb (oct_import_warns t) w
+  | CWarnRoutes t bits obs =>
+      forallb (fun rw => Bool.eqb (snd (import_text (fst rw) t)) (snd rw) &&
+                         (k_bits (fst (import_text (fst rw) t)) =? bits)) obs
   end.
 
 Definition c06_show (c : c06case) : res unit := c06_model c.
